@@ -61,6 +61,8 @@ pub fn settings(machine: ZXMachine) -> RustzxSettings {
         sound_enabled: false,
         sound_volume: 100,
         sound_sample_rate: 44100,
+        load_default_rom: false,
+        autoload_enabled: false,
     }
 }
 
